@@ -8,7 +8,7 @@ RULE = ("cases = (number of fields 1..3, common length, selector / concatenation
         "oracle = the same selector applied to every field array separately; non-trivial = at least two fields and length >= 2")
 ASSUMPTIONS = ["oracle: numpy indexing / concatenation of each field array on its own", "field contents are distinct per field and row so a misaligned entry is visible"]
 REQUIRED_FEATURES = ["three_fields", "two_dim_field", "zero_length", "mask_selector", "list_with_repeats", "mismatch_refused", "varlen_widths_differ",
-                     "concat_triple", "single_entry"]
+                     "concat_triple", "single_entry", "astype_reordered_fields", "equality_other_field_shape"]
 BOUNDS = {"quick": "1-3 fields (1-D int, 2-D int, 1-D float) x length 0..4 x {every int, 27 slices, lists of length<=2 incl. empty, every mask} + iteration, "
                    "concatenate pairs and triples with lengths 0..3, equality, astype to a narrower class, fields one entry longer/shorter; VarLenArray "
                    "concatenation widths 1..3 x lengths 0..2 (pairs) and triples",
@@ -38,7 +38,12 @@ def _classes():
         @npdataclass
         class Kb:
             b: np.ndarray
-        _CLS.update({1: K1, 2: K2, 3: K3, "b": Kb})
+
+        @npdataclass
+        class Kca:          # a narrower class whose shared fields are declared in a different order
+            c: np.ndarray
+            a: np.ndarray
+        _CLS.update({1: K1, 2: K2, 3: K3, "b": Kb, "ca": Kca})
     return _CLS
 
 
@@ -155,10 +160,22 @@ def check(case, acc):
                 g = [x.copy() for x in f]
                 g[-1] = g[-1] + 1
                 _cmp(acc, "equality-last-field-differs", False, lambda: bool(mk() == K(*g)))
+                # same length, a 2-D field of another (broadcast-compatible) width: different tables
+                acc.feature("equality_other_field_shape")
+                col = np.arange(n).reshape(n, 1) + 7
+                g1 = [x.copy() for x in f]
+                g2 = [x.copy() for x in f]
+                g1[1], g2[1] = col, np.repeat(col, 3, axis=1)
+                _cmp(acc, "equality-field-widths-differ", False, lambda: bool(K(*g1) == K(*g2)))
+                _cmp(acc, "equality-field-widths-differ(rev)", False, lambda: bool(K(*g2) == K(*g1)))
     elif kind == "eqself":
         _cmp(acc, "equality-self", True, lambda: bool(mk() == mk()))
     elif kind == "astype":
         _cmp(acc, "astype-narrower", [f[1].tolist()], lambda: tup(mk().astype(C["b"])))
+        if k == 3:
+            acc.feature("astype_reordered_fields")
+            _cmp(acc, "astype-narrower-reordered", {"c": f[2].tolist(), "a": f[0].tolist()},
+                 lambda: (lambda o: {"c": np.asarray(o.c).tolist(), "a": np.asarray(o.a).tolist()})(mk().astype(C["ca"])))
     elif kind == "mismatch":
         d, which = case[3], case[4]
         g = [x.copy() for x in f]
